@@ -128,3 +128,21 @@ Theorem C14_middlewares_only_with_the_default_error_handler_refuted :
   /\ mounted_trace mount_under_default_error_handler Chi false None o = [EHandler].
 Proof. exact mount_under_default_error_handler_refuted. Qed.
 Print Assumptions C14_middlewares_only_with_the_default_error_handler_refuted.
+
+(** The first-to-last variants build the chain with a counting loop, for i := len - 1; i >= 0; i--.  The loop visits the
+    configured middlewares from the last to the first, which is the chain of the model; a loop that stops at i > 0 never
+    wraps the first configured middleware (with one middleware nothing runs before the handler). *)
+Theorem C14_counting_loop_visits_all_in_reverse : forall s : slice, countdown (length s) s = rev s.
+Proof. exact countdown_is_rev. Qed.
+Print Assumptions C14_counting_loop_visits_all_in_reverse.
+
+Theorem C14_first_to_last_loop : forall (ms : list mw) inner,
+  wrap_loop EMw (countdown (length (indexed ms)) (indexed ms)) inner = nethttp_chain true ms inner.
+Proof. exact first_to_last_loop. Qed.
+Print Assumptions C14_first_to_last_loop.
+
+Theorem C14_loop_stopping_early_refuted :
+  wrap_loop EMw (countdown 1 (indexed [Stop])) [EHandler] = [EMw 0]
+  /\ wrap_loop EMw (countdown_stopping_early 1 (indexed [Stop])) [EHandler] = [EHandler].
+Proof. exact countdown_stopping_early_refuted. Qed.
+Print Assumptions C14_loop_stopping_early_refuted.
